@@ -64,7 +64,10 @@ def validate_jobs(sc, d, modes, entries):
     files = {}
     # every other scenario keeps its rules files under ONE base name in different directories
     same = sum(map(ord, d)) % 2 == 1
-    rnames = [('pol/d%d/r.guard' % i) if same else ('r%d.guard' % i) for i in range(len(sc['rules']))]
+    # a rules file that is named explicitly is used whatever its extension (only directory scans filter on .guard / .ruleset)
+    exts = ['r%d.guard', 'r%d.ruleset', 'r%d.rules', 'policy%d', 'r%d.guard.txt', 'R%d.GUARD']
+    h = sum(map(ord, d))
+    rnames = [('pol/d%d/r.guard' % i) if same else (exts[(h // 2 + i) % len(exts)] % i) for i in range(len(sc['rules']))]
     for nme, r in zip(rnames, sc['rules']):
         files[nme] = r
     for i, t in enumerate(sc['docs']):
@@ -212,7 +215,9 @@ TEST_RULES = ['rule check when ok exists { ok == true }\nrule n_pos { n >= 0 }\n
               'rule only { n in [1, 2, 3] }\n',
               'rule dup when ok exists { n == 1 }\nrule dup when n exists { n >= 0 }\nrule other { ok == true }\n',
               'rule dup when zz exists { n == 1 }\nrule dup when ok exists { ok == true }\nrule dup { n == 5 }\n']
-TEST_INPUTS = [{"ok": True, "n": 1}, {"ok": False, "n": 2}, {"n": 5}, {"ok": True, "n": -1}]
+# the third input has a character outside the BMP: json.dumps writes it as a surrogate-pair escape, which is JSON but not YAML - a
+# spec file may be either (the reporters fall back from the YAML to the JSON reader)
+TEST_INPUTS = [{"ok": True, "n": 1}, {"ok": False, "n": 2}, {"n": 5, "note": "five \U0001f600"}, {"ok": True, "n": -1}]
 
 
 def gen_test_scenario(rng):
@@ -241,7 +246,7 @@ def run_test_cmd(ctx, nscen):
             if spec == 'BAD':
                 continue
             for b, case in enumerate(spec):
-                pairs.append((sc['rules'], json.dumps(case['input'])))
+                pairs.append((sc['rules'], json.dumps(case['input'], ensure_ascii=False)))   # the document itself; the spec file below keeps the \u escapes
                 index.append((k, a, b))
     outs, raw = e2e.pair_outcomes(pairs, ctx.wd, 'c06tpairs', loader='test')
     ares = impl.run_ops_parallel([{'op': 'ast', 'rules': sc['rules']} for sc in scen], ctx.wd, 'c06tast')
